@@ -323,4 +323,10 @@ Fixpoint all_graphs_rows (rows : list (list (list nat))) : list graph :=
 (** All digraphs on n nodes (rows sorted), with or without self-loops. *)
 Definition all_digraphs (n : nat) (loops : bool) : list graph :=
   all_graphs_rows (map (fun u => sublists (filter (fun v => loops || negb (v =? u)) (seq 0 n))) (seq 0 n)).
+(** All undirected graphs on n nodes with optional self-loops: choose the upper triangle (and the
+    diagonal), then close under symmetry. Rows come out sorted. *)
+Definition close_sym (g : graph) : graph :=
+  map (fun u => filter (fun v => edgeb g u v || edgeb g v u) (nodes g)) (nodes g).
+Definition all_undirected (n : nat) : list graph :=
+  map close_sym (all_graphs_rows (map (fun u => sublists (filter (fun v => u <=? v) (seq 0 n))) (seq 0 n))).
 Definition nonempty_sublists (l : list nat) : list (list nat) := filter (fun s => negb (length s =? 0)) (sublists l).
